@@ -101,6 +101,15 @@ theorem depth_error (hall : AllReply disp beh) (h0 : cfg.maxNesting ≠ 0) (args
 
 /-! ### dispatch -/
 
+/-- fact about the *extracted* `special` string of `canonicalName` on which idempotence rests -/
+theorem special_table_ok : SpecialOk Gen.canonicalSpecial := by decide
+
+/-- `canonicalName` is idempotent: `findCallbacksForArgs` canonicalises every argument once, and the
+`assert args == list(map(canonicalName, args))` at the top of `getCommand` can never fire. -/
+theorem canonicalName_idem (s : Str) : canonicalName (canonicalName s) = canonicalName s :=
+  canonicalName_idem' special_table_ok s
+
+
 /-- `getCommand` returns a prefix of the arguments it was given (so comparing candidates with
 `L >= maxL` is comparing lengths, as the source comments). -/
 theorem getCommand_prefix (d : Disabled) (P : Plugin) (args L : List Str) (h : getCommand d P args = .ok L) :
